@@ -771,10 +771,13 @@ impl CryptoTransform for CryptographicBuiltin {
     // CryptoHeader + CryptoContent + CryptoFooter
     //
     // We can detect which one it is from CryptoHeader contents.
-    // splitting to the three parts has to be done by byte offset, because
-    // SerializedPayload does not have a length marker, but both header and footer
-    // have a fixed length. Footer is not allowed to have receiver specific MACs
-    // here, which makes its size fixed.
+    // The header has a fixed length. In the signed-only case SerializedPayload does
+    // not have a length marker, so the footer (fixed length, because it is not
+    // allowed to have receiver specific MACs here) is taken from the end of the
+    // buffer. CryptoContent does carry its length, so in the encrypted case the
+    // footer is located right after it: the buffer may continue with up to 3 bytes
+    // of alignment padding, because a DATA submessage pads its payload to a
+    // multiple of 4 bytes and the ciphertext has the length of the plaintext.
 
     let head_len = BuiltinCryptoHeader::serialized_len();
     let foot_len = BuiltinCryptoFooter::minimal_serialized_len();
@@ -785,10 +788,8 @@ impl CryptoTransform for CryptographicBuiltin {
       return Err(security_error("Encoded payload smaller than minimum size"));
     }
     let (header_bytes, content_and_footer_bytes) = encoded_buffer.split_at(head_len);
-    let (content_bytes, footer_bytes) =
-      content_and_footer_bytes.split_at(content_and_footer_bytes.len() - foot_len);
 
-    // Deserialize crypto header and footer
+    // Deserialize crypto header
 
     // .read_from_buffer() does not need endianness, because BuiltinCryptoHeader
     // only contains byte-oriented data, which is insensitive to endianness.
@@ -803,6 +804,34 @@ impl CryptoTransform for CryptographicBuiltin {
       builtin_crypto_header_extra: BuiltinCryptoHeaderExtra(initialization_vector),
     } = crypto_header.try_into()?;
 
+    let (content_bytes, footer_bytes) = match transformation_kind {
+      BuiltinCryptoTransformationKind::CRYPTO_TRANSFORMATION_KIND_AES128_GCM
+      | BuiltinCryptoTransformationKind::CRYPTO_TRANSFORMATION_KIND_AES256_GCM => {
+        // CryptoContent: ciphertext length as big-endian u32, then the ciphertext
+        let content_len = content_and_footer_bytes
+          .get(..4)
+          .and_then(|len_bytes| <[u8; 4]>::try_from(len_bytes).ok())
+          .map(u32::from_be_bytes)
+          .and_then(|ciphertext_len| usize::try_from(ciphertext_len).ok())
+          .and_then(|ciphertext_len| ciphertext_len.checked_add(4))
+          .filter(|content_len| {
+            content_and_footer_bytes.len() - foot_len >= *content_len
+          })
+          .ok_or_else(|| security_error("CryptoContent does not fit in the encoded payload"))?;
+        let (content_bytes, footer_and_padding_bytes) =
+          content_and_footer_bytes.split_at(content_len);
+        let (footer_bytes, padding_bytes) = footer_and_padding_bytes.split_at(foot_len);
+        if padding_bytes.len() >= 4 || padding_bytes.iter().any(|b| *b != 0) {
+          return Err(security_error(
+            "Unexpected data after the CryptoFooter of an encoded payload",
+          ));
+        }
+        (content_bytes, footer_bytes)
+      }
+      _ => content_and_footer_bytes.split_at(content_and_footer_bytes.len() - foot_len),
+    };
+
+    // Deserialize crypto footer
     let BuiltinCryptoFooter { common_mac, .. } = BuiltinCryptoFooter::try_from(footer_bytes)?;
 
     // Get the payload decode key material
